@@ -153,20 +153,27 @@ func newSession(config *Config, conn net.Conn, isClient bool) (*Session, error) 
 	}
 
 	if err := s.initMemManager(); err != nil {
+		_ = fd.Close()
 		return nil, fmt.Errorf("create share memory buffer manager failed ,error=%w", err)
 	}
-	if err := s.initProtocol(); err != nil {
+	// release everything acquired so far when the session could not be established
+	cleanup := func() {
 		if s.queueManager != nil {
 			s.queueManager.unmap()
 		}
 		if s.bufferManager != nil {
 			addGlobalBufferManagerRefCount(s.bufferManager.path, -1)
 		}
+		_ = fd.Close()
+	}
+	if err := s.initProtocol(); err != nil {
+		cleanup()
 		return nil, err
 	}
 
 	s.eventConn = s.dispatcher.newConnection(fd)
 	if err := s.eventConn.setCallback(s); err != nil {
+		cleanup()
 		return nil, err
 	}
 	s.mu.Lock()
